@@ -14,14 +14,18 @@
   Part 2: all histories (`C03_history`, `C03_let`, `C03_heap_prefix`).
   Part 3: the code as found (`append(s.s, c)`) violates all of this — concrete histories.
   Part 4: what the repaired `with` computes (the copy really is a copy of the old contents).
-  Part 5: the write sites of rel/ and syntax/std_seq*.go are the ones this model was written against.
+  Part 5: the write sites of rel/ and syntax/std_seq*.go are the ones this model was written against, and the
+          callees they rely on still return slices of their own.
+  Part 6: relations — headings (NamesSlice) and rows (Values) are slices too: the same theorems for histories of
+          joins (all eight operators, on results of earlier joins), with/without/where/|/nest/unnest/rank/=>.
 -/
 import Arrai.C03.Lemmas
+import Arrai.C03.RelLemmas
 import Arrai.C03.Expected
 import Arrai.Facts.Generated
 
 namespace Arrai.C03.Theorems
-open Arrai.C03 Arrai.C03.Impl
+open Arrai.C03 Arrai.C03.Impl Arrai.C03.Rel
 
 /-! ### Part 1 — one operation -/
 
@@ -196,6 +200,107 @@ theorem with_at_end_appends (orc : Oracle) (k : Kind) (h : Heap) (s : Slice) (of
       rw [e0] at hlen; simpa using hlen.symm
     simp [read, hz]
 
+/-! ### Part 6 — relations: headings and rows are slices too -/
+
+/-- one repaired operation on relations keeps the invariant (heading and every row of every value created so far lie in
+the heap) and leaves what EVERY earlier relation denotes — heading and rows, read through the heap — unchanged -/
+theorem rel_step_frame (orc : Oracle) (st : Rel.Impl.St) (inv : InvR st) (op : ROp) :
+    InvR (Rel.Impl.step Rel.Impl.repaired orc st op) ∧
+      ∀ x, x ∈ st.vals → snapR (Rel.Impl.step Rel.Impl.repaired orc st op).h x = snapR st.h x := by
+  have ok := opOKR_run1 orc st inv op
+  constructor
+  · intro x hx
+    simp only [Rel.Impl.step, List.mem_append, List.mem_singleton] at hx
+    rcases hx with hx | rfl
+    · exact (inv x hx).mono ok.1.1
+    · exact ok.2
+  · intro x hx
+    exact snapR_frame ok.1 (inv x hx)
+
+/-- … because it stores only into arrays it allocated itself: the joins' `append`s (row and heading) included -/
+theorem rel_step_writes_only_fresh (orc : Oracle) (st : Rel.Impl.St) (inv : InvR st) (op : ROp) (a : Nat)
+    (ha : a < st.h.length) : (Rel.Impl.step Rel.Impl.repaired orc st op).h.getD a [] = st.h.getD a [] :=
+  (opOKR_run1 orc st inv op).1.2 a ha
+
+private theorem rrunAll_append (cfg : Rel.Impl.Cfg) (orc : Oracle) (pre post : List ROp) (st : Rel.Impl.St) :
+    Rel.Impl.runAll cfg orc (pre ++ post) st = Rel.Impl.runAll cfg orc post (Rel.Impl.runAll cfg orc pre st) := by
+  simp [Rel.Impl.runAll, List.foldl_append]
+
+private theorem rel_history_from (orc : Oracle) (post : List ROp) (st : Rel.Impl.St) (inv : InvR st) :
+    InvR (Rel.Impl.runAll Rel.Impl.repaired orc post st) ∧
+      ∀ (k : Nat) (x : RVal), st.vals[k]? = some x →
+        (Rel.Impl.runAll Rel.Impl.repaired orc post st).vals[k]? = some x ∧
+          snapR (Rel.Impl.runAll Rel.Impl.repaired orc post st).h x = snapR st.h x := by
+  induction post generalizing st with
+  | nil => exact ⟨inv, fun k x hk => ⟨hk, rfl⟩⟩
+  | cons op r ih =>
+    have sf := rel_step_frame orc st inv op
+    have := ih (Rel.Impl.step Rel.Impl.repaired orc st op) sf.1
+    refine ⟨this.1, fun k x hk => ?_⟩
+    have hk' : (Rel.Impl.step Rel.Impl.repaired orc st op).vals[k]? = some x := by
+      simp only [Rel.Impl.step]
+      rw [List.getElem?_append_left (List.getElem?_eq_some_iff.1 hk).1]
+      exact hk
+    have h2 := this.2 k x hk'
+    refine ⟨h2.1, ?_⟩
+    have e : Rel.Impl.runAll Rel.Impl.repaired orc (op :: r) st =
+        Rel.Impl.runAll Rel.Impl.repaired orc r (Rel.Impl.step Rel.Impl.repaired orc st op) := rfl
+    rw [e, h2.2]
+    exact sf.2 x (List.mem_of_getElem? hk)
+
+/-- For ALL histories of relational operations (literals, the eight joins on any earlier values — results of earlier
+joins included, the same parent joined any number of times —, with, without, where, |, nest, unnest, rank, =>) and ALL
+capacity oracles: a relation that exists after `pre` denotes after any continuation what it denoted then -/
+theorem C03_rel_history (orc : Oracle) (pre post : List ROp) (k : Nat) (x : RVal)
+    (hk : (Rel.Impl.runAll Rel.Impl.repaired orc pre Rel.Impl.init).vals[k]? = some x) :
+    (Rel.Impl.runAll Rel.Impl.repaired orc (pre ++ post) Rel.Impl.init).vals[k]? = some x ∧
+      snapR (Rel.Impl.runAll Rel.Impl.repaired orc (pre ++ post) Rel.Impl.init).h x =
+        snapR (Rel.Impl.runAll Rel.Impl.repaired orc pre Rel.Impl.init).h x := by
+  rw [rrunAll_append]
+  have inv := (rel_history_from orc pre Rel.Impl.init invR_init).1
+  exact (rel_history_from orc post _ inv).2 k x hk
+
+def n1 (n : Int) : V := .num n
+
+/-- `let A = {|a,b,c| (1,2,3)}; let x = A <&> {|a,d| (1,4)}; let y = A <&> {|a,e| (1,5)}; x` -/
+def relHeading : List ROp :=
+  [.lit [0, 1, 2] [[n1 1, n1 2, n1 3]], .lit [0, 3] [[n1 1, n1 4]], .lit [0, 4] [[n1 1, n1 5]],
+   .join .join 0 1, .join .join 0 2]
+
+/-- `let x = {|a,b| (1,2)} <&> {|c| (3)}; let y = x <&> {|d| (4)}; let z = x <&> {|d| (5)}; y` -/
+def relRows : List ROp :=
+  [.lit [0, 1] [[n1 1, n1 2]], .lit [2] [[n1 3]], .join .join 0 1, .lit [3] [[n1 4]], .lit [3] [[n1 5]],
+   .join .join 2 3, .join .join 2 4]
+
+/-- the heading as found (`append(leftOutput, rightOutput...)`): `x`'s heading a,b,c,d turns into a,b,c,e when `y` is made -/
+theorem rel_alias_heading_before_repair :
+    (rcells (Rel.Impl.runAll ⟨false, true⟩ (fun _ => 1) (relHeading.take 4) Rel.Impl.init).h
+      ((Rel.Impl.runAll ⟨false, true⟩ (fun _ => 1) (relHeading.take 4) Rel.Impl.init).vals.getD 3 .err)).head?
+      = some [nameCell 0, nameCell 1, nameCell 2, nameCell 3] ∧
+    (rcells (Rel.Impl.runAll ⟨false, true⟩ (fun _ => 1) relHeading Rel.Impl.init).h
+      ((Rel.Impl.runAll ⟨false, true⟩ (fun _ => 1) relHeading Rel.Impl.init).vals.getD 3 .err)).head?
+      = some [nameCell 0, nameCell 1, nameCell 2, nameCell 4] := by decide
+
+/-- if `projectedValues.values()` handed out the row itself for an identity projection, `JoinKeepEverything` would append in
+place into a row that an earlier join left with spare capacity: `y`'s row 1,2,3,4 turns into 1,2,3,5 when `z` is made -/
+theorem rel_alias_rows_if_values_returns_row :
+    (rcells (Rel.Impl.runAll ⟨true, false⟩ (fun _ => 1) (relRows.take 6) Rel.Impl.init).h
+      ((Rel.Impl.runAll ⟨true, false⟩ (fun _ => 1) (relRows.take 6) Rel.Impl.init).vals.getD 5 .err)).tail
+      = [[some (n1 1), some (n1 2), some (n1 3), some (n1 4)]] ∧
+    (rcells (Rel.Impl.runAll ⟨true, false⟩ (fun _ => 1) relRows Rel.Impl.init).h
+      ((Rel.Impl.runAll ⟨true, false⟩ (fun _ => 1) relRows Rel.Impl.init).vals.getD 5 .err)).tail
+      = [[some (n1 1), some (n1 2), some (n1 3), some (n1 5)]] := by decide
+
+/-- with the code as it is now both histories leave `x` / `y` as they were -/
+theorem rel_witnesses_after_repair :
+    (rcells (Rel.Impl.runAll Rel.Impl.repaired (fun _ => 1) relHeading Rel.Impl.init).h
+      ((Rel.Impl.runAll Rel.Impl.repaired (fun _ => 1) relHeading Rel.Impl.init).vals.getD 3 .err)).head?
+      = some [nameCell 0, nameCell 1, nameCell 2, nameCell 3] ∧
+    (rcells (Rel.Impl.runAll Rel.Impl.repaired (fun _ => 1) relRows Rel.Impl.init).h
+      ((Rel.Impl.runAll Rel.Impl.repaired (fun _ => 1) relRows Rel.Impl.init).vals.getD 5 .err)).tail
+      = [[some (n1 1), some (n1 2), some (n1 3), some (n1 4)]] := by decide
+
+
 /-! ### Part 5 — regenerated facts: the write sites of rel/ and syntax/std_seq*.go -/
 
 /-- every `x[i] = v`, `append(x, …)`, `copy(x, …)` whose destination is not a slice made in the same function:
@@ -212,5 +317,13 @@ theorem writeSites_model_covered :
     (Expected.nonfreshNoted.filter (·.2.isModel)).map (·.1.2.1) =
       ["Array.Where", "Array.Without", "genericSetBuilder.Add", "positionalRelation.JoinKeepEverything",
        "arraySub", "arraySub"] := by decide
+
+/-- the classification of every return statement of the callees that write sites and the heap model depend on is the
+expected one: a callee that starts returning a field or a parameter (`return pv.v`) changes its row -/
+theorem callees_as_expected : Facts.Generated.c03_callees = Expected.callees := by decide
+
+/-- … and the ones assumed to return storage of their own do so on every return path -/
+theorem callees_assumed_fresh :
+    Expected.assumedFresh.all (fun n => Expected.callees.any (fun r => r.2.1 = n && r.2.2 = "fresh")) = true := by decide
 
 end Arrai.C03.Theorems
